@@ -1,10 +1,12 @@
 #!/bin/bash
-# batch.sh <PROP> [features]: confirm the 3 mutants of /tmp/wt-<PROP>, copy to /verif/seeded, try them in the lab
-P=$1; FEAT=$2
+# batch.sh <PROP> [features] [offset]: confirm the mutants of /tmp/wt-<PROP>/mutants/{1,2,3}, copy them to
+# /verif/seeded/<PROP>-<k+offset>
+P=$1; FEAT=$2; OFF=${3:-0}
 for k in 1 2 3; do
   M=/tmp/wt-$P/mutants/$k
   [ -d $M ] || continue
-  echo "=== $P-$k"
-  /verif/tools/confirm_mutant.sh /tmp/wt-$P $M "$FEAT" 2>&1 | tail -2
-  d=/verif/seeded/$P-$k; mkdir -p $d; cp $M/patch.diff $M/demo.rs $M/notes.md $d/ 2>/dev/null; [ -f $M/demo.sh ] && cp $M/demo.sh $d/
+  n=$((k+OFF))
+  echo "=== $P-$n"
+  if [ -f $M/demo.rs ]; then /verif/tools/confirm_mutant.sh /tmp/wt-$P $M "$FEAT" 2>&1 | tail -2; else /verif/tools/confirm_sh.sh /tmp/wt-$P $M 2>&1 | tail -2; fi
+  d=/verif/seeded/$P-$n; mkdir -p $d; cp $M/patch.diff $M/notes.md $d/ 2>/dev/null; cp $M/demo.rs $M/demo.sh $d/ 2>/dev/null
 done
